@@ -318,9 +318,9 @@ func routingTable(w *World, r *Report, rule string) {
 		}
 		return map[string]string{
 			"p0.Sender.AddNonce()": "AddNonce",
-			"p0.AcctHandler.SetAccountCommittable(p0.Sender, p0.Exec)":                              "Mark",
-			"p0.Sender.SubBalance(new(uint256.Int).Mul(p0.Tx.GasPrice, uint256.NewInt(p0.Tx.Gas)))": "SubFee",
-		}[w.canonCall(c.Common(), 0)]
+			"p0.AcctHandler.SetAccountCommittable(p0.Sender, p0.Exec)": "Mark",
+			"p0.Sender.SubBalance(" + feeExpr + ")":                    "SubFee",
+		}[w.canonCallI(c.Common())]
 	}
 	// any other AddNonce / nonce-relevant call in postRunTrx is reported
 	for _, c := range CallsIn(post) {
